@@ -147,12 +147,13 @@ func (g *likeGrid) setup() []string {
 
 // job = one first term of a family; the worker enumerates the rest of the clause
 type ljob struct {
-	fam   int // 1..3: n terms over t1; 4: n=4 over t0; 5: depth-2 term alone / with one t0 (quick) or t1 (thorough) term; 6: depth-2 term with two t0 terms (thorough)
+	fam   int // 1..3: n terms over t1; 4: n=4 over t0; 5: depth-2 term alone / with one t0 (quick) or t1 (thorough) term; 6: depth-2 term with two atoms (thorough)
 	first int
 }
 
+// every tail for clauses of up to 2 terms (and 4 [NOT] atom terms in thorough); '' and ORDER BY for the larger families
 func (g *likeGrid) tails(small bool) []int {
-	if small || !g.quick {
+	if small {
 		return []int{0, 1, 2, 3}
 	}
 	return []int{0, 1}
@@ -210,7 +211,7 @@ func (g *likeGrid) runJob(w *worker, j ljob) {
 		for _, b := range g.t0 {
 			for _, c := range g.t0 {
 				for _, d := range g.t0 {
-					g.chain(w, []lterm{g.t0[j.first], b, c, d}, g.tails(false))
+					g.chain(w, []lterm{g.t0[j.first], b, c, d}, g.tails(!g.quick))
 				}
 			}
 		}
@@ -227,8 +228,8 @@ func (g *likeGrid) runJob(w *worker, j ljob) {
 		}
 	case 6:
 		d := g.t2[j.first]
-		for _, b := range g.t0 {
-			for _, c := range g.t0 {
+		for _, b := range g.t0[:len(lAtoms)] {
+			for _, c := range g.t0[:len(lAtoms)] {
 				g.chain(w, []lterm{d, b, c}, g.tails(false))
 				g.chain(w, []lterm{b, d, c}, g.tails(false))
 				g.chain(w, []lterm{b, c, d}, g.tails(false))
@@ -434,7 +435,7 @@ func (g *likeGrid) coverage() map[string]any {
 	m["rows"] = g.nrows
 	m["atoms"] = lAtoms
 	m["tails"] = lTails
-	m["grammar"] = "term := [NOT] atom | [NOT] (atom op atom); every clause of 1..3 such terms (quick: at most one parenthesised term among 3), every clause of 4 [NOT] atom terms, every depth-2 term [NOT] (X op Y) with X,Y in atom|(atom op atom) alone or joined before/after one atom (thorough: one depth-1 term, or two [NOT] atom terms in every position); op in AND, OR; every tail (quick: '' and ORDER BY only for clauses of 3+ terms)"
+	m["grammar"] = "term := [NOT] atom | [NOT] (atom op atom); every clause of 1..3 such terms (quick: at most one parenthesised term among 3), every clause of 4 [NOT] atom terms, every depth-2 term [NOT] (X op Y) with X,Y in atom|(atom op atom) alone or joined before/after one atom (thorough: one depth-1 term, or two atoms in every position); op in AND, OR; every tail for clauses of 1-2 terms (thorough: also 4 terms), '' and ORDER BY for the rest"
 	m["failing_clauses_before_minimisation"] = g.rawFail
 	m["classes"] = len(g.viol)
 	return m
